@@ -20,6 +20,9 @@ CHECKS = {
  "C16": dict(level="model_checking", technique="bounded exhaustive enumeration of nullable-rich grammars x all sentences up to a bound, executed on the second template variant (bounds carrier); spans compared with the yields of the reduction tree; differential against the plain variant",
    text="For every accepted grammar with a nullable non-terminal, every sentence up to the bound is parsed by the real _onBounds template variant: exactly one call right after each non-empty reduction with the action's result and first/last token of the yield, none for empty yields, and verdict/reductions/reads identical to the variant without _onBounds.",
    note="Trusted: the tree built by the generic action from the real stack (its shape is C01/C03's subject). Error inputs are checked for exactly-once and crash freedom only.", ref="DESIGN.md section C16"),
+ "C02": dict(level="model_checking", technique="bounded exhaustive enumeration of rule sets; per rule set an explicit-state BFS over the product (real _LexerStateMachine with emitted tables) x (reference derivative automaton) covering inputs of every length, plus all byte strings up to a bound through the real simplelexer driver",
+   text="For every enumerated rule set inside the property's precondition the product of the real generated state machine and the reference is searched completely (finite graph): every PushRune result equals the documented longest-viable-run / earliest-rule semantics up to the first error, for all inputs over representatives of every class atom. Byte-level bookkeeping (offsets, multi-byte and invalid UTF-8) is covered by all short byte strings through the real driver.",
+   note="Trusted: internal/lexref (Brzozowski derivatives over class atoms), internal/ivl. Bounds: rule-set size; driver strings up to L symbols.", ref="DESIGN.md section C02"),
 }
 
 NA_REASON = "check not built yet (work in progress; see DESIGN.md for the plan)"
